@@ -5,10 +5,11 @@ use rustpython_parser_core::source_code::{
     LineIndex, LinearLocator, OneIndexed, RandomLocator, SourceCode, UniversalNewlineIterator,
 };
 use rustpython_parser_core::source_location::newlines::{
-    find_newline, LineEnding, NewlineWithTrailingNewline, StrExt,
+    find_newline, Line, LineEnding, NewlineWithTrailingNewline, StrExt,
 };
 use rustpython_parser_core::text_size::{TextRange, TextSize};
 use std::cmp::Ordering;
+use std::ops::{Bound, RangeBounds};
 
 /// Naive model: (start, end-without-terminator, end-with-terminator) per line;
 /// the last line (possibly empty) has no terminator.
@@ -96,7 +97,9 @@ fn check_text(m: &mut Mon, text: &str, do_locators: bool) {
     let sc = SourceCode::new(text, &index);
     let starts: Vec<u32> = index.line_starts().iter().map(|x| u32::from(*x)).collect();
     let exp_starts: Vec<u32> = lines.iter().map(|l| l.0 as u32).collect();
-    m.chk("line_starts", text, starts, exp_starts);
+    m.chk("line_starts", text, starts, exp_starts.clone());
+    m.chk("LineIndex as a slice", text, (index.len(), index.first().map(|x| u32::from(*x)), index.iter().map(|x| u32::from(*x)).collect::<Vec<u32>>()), (n, Some(0), exp_starts.clone()));
+    m.chk("LineIndex Debug", text, format!("{:?}", index), format!("{:?}", exp_starts));
     m.chk("line_count", text, sc.line_count(), n);
     let bounds: Vec<usize> = (0..=text.len()).filter(|i| text.is_char_boundary(*i)).collect();
     for &o in &bounds {
@@ -132,6 +135,12 @@ fn check_text(m: &mut Mon, text: &str, do_locators: bool) {
         let fwd: Vec<(u32, String)> = mk().map(|l| (u32::from(l.start()), l.as_full_str().to_string())).collect();
         let exp: Vec<(u32, String)> = ulines.iter().map(|l| ((l.0 + base) as u32, text[l.0..l.2].to_string())).collect();
         m.chk("newlines.forward", text, fwd, exp.clone());
+        m.chk("newlines.last", text, mk().last().map(|l| (u32::from(l.start()), l.as_full_str().to_string())), exp.last().cloned());
+        for (l, e) in mk().zip(ulines.iter()) {
+            let body = &text[e.0..e.1];
+            m.chk("Line == &str", text, (l == body, body == l, &*l == body, l.as_str() == body), (true, true, true, true));
+            m.chk("Line::new", text, (Line::new(l.as_full_str(), l.start()).as_str(), u32::from(Line::new(l.as_full_str(), l.start()).full_end())), (body, (e.2 + base) as u32));
+        }
         let mut bwd: Vec<(u32, String)> = mk().rev().map(|l| (u32::from(l.start()), l.as_full_str().to_string())).collect();
         bwd.reverse();
         m.chk("newlines.backward", text, bwd, exp.clone());
@@ -260,6 +269,30 @@ fn check_ranges(m: &mut Mon, lim: u32, seed: u64) {
         m.chk("range.len", t, u32::from(r.len()), b - a);
         m.chk("range.is_empty", t, r.is_empty(), a == b);
         m.chk("range.at", t, TextRange::at(a.into(), (b - a).into()), r);
+        // a range read through the standard traits: bounds, `contains` of RangeBounds, conversion to Range<usize>/<u32>
+        m.chk("range.bounds", t, (r.start_bound(), r.end_bound()), (Bound::Included(&TextSize::from(a)), Bound::Excluded(&TextSize::from(b))));
+        for o in 0..=lim + 1 {
+            m.chk("RangeBounds::contains", t, (a, b, o, RangeBounds::contains(&r, &TextSize::from(o))), (a, b, o, a <= o && o < b));
+        }
+        m.chk("Range<usize>::from", t, std::ops::Range::<usize>::from(r), a as usize..b as usize);
+        m.chk("Range<u32>::from", t, std::ops::Range::<u32>::from(r), a..b);
+        m.chk("TextRange::from(Range)", t, TextRange::from(TextSize::from(a)..TextSize::from(b)), r);
+        // operators by reference and in place
+        let d = TextSize::from(b - a);
+        let sz = TextSize::from(a);
+        let mut r2 = r;
+        r2 += d;
+        m.chk("range += size", t, (r + d, r + &d, &r + d, r2), (mk(a + (b - a), b + (b - a)), mk(a + (b - a), b + (b - a)), mk(a + (b - a), b + (b - a)), mk(a + (b - a), b + (b - a))));
+        let mut r3 = r;
+        r3 -= sz;
+        m.chk("range -= size", t, (r - sz, r - &sz, &r - sz, r3), (mk(0, b - a), mk(0, b - a), mk(0, b - a), mk(0, b - a)));
+        let mut s2 = sz;
+        s2 += d;
+        let mut s3 = TextSize::from(b);
+        s3 -= sz;
+        m.chk("size ops by reference / in place", t, (sz + &d, &sz + d, &sz + &d, s2, TextSize::from(b) - &sz, s3), (TextSize::from(b), TextSize::from(b), TextSize::from(b), TextSize::from(b), d, d));
+        m.chk("size sum", t, ([sz, d, d].iter().sum::<TextSize>(), [sz, d].into_iter().sum::<TextSize>()), (TextSize::from(a + 2 * (b - a)), TextSize::from(b)));
+        m.chk("OneIndexed Display", t, format!("{}", OneIndexed::from_zero_indexed(a)), format!("{}", a + 1));
         m.chk("range.empty", t, TextRange::empty(a.into()), mk(a, a));
         m.chk("range.up_to", t, TextRange::up_to(b.into()), mk(0, b));
         for o in 0..=lim + 1 {
@@ -361,8 +394,22 @@ fn check_ranges(m: &mut Mon, lim: u32, seed: u64) {
         for b in a..=text.len() {
             if text.is_char_boundary(a) && text.is_char_boundary(b) {
                 m.chk("str[range]", text, &text[mk(a as u32, b as u32)], &text[a..b]);
+                let mut owned = String::from(text);
+                m.chk("String[range]", text, &owned[mk(a as u32, b as u32)], &text[a..b]);
+                owned[mk(a as u32, b as u32)].make_ascii_uppercase();
+                let mut exp = String::from(text);
+                exp[a..b].make_ascii_uppercase();
+                m.chk("String[range] (mutable)", text, owned.clone(), exp.clone());
+                let st: &mut str = owned.as_mut_str();
+                st[mk(a as u32, b as u32)].make_ascii_lowercase();
+                exp[a..b].make_ascii_lowercase();
+                m.chk("str[range] (mutable)", text, owned, exp);
+                m.chk("TextSize::of", text, (TextSize::of(&text[a..b]), TextSize::of(&String::from(&text[a..b]))), (TextSize::from((b - a) as u32), TextSize::from((b - a) as u32)));
             }
         }
+    }
+    for c in ['a', '\u{e9}', '\u{20ac}', '\u{1d11e}', '\0', '\u{10ffff}'] {
+        m.chk("TextSize::of(char)", t, (c, TextSize::of(c)), (c, TextSize::from(c.len_utf8() as u32)));
     }
     // near 2^32
     let mut rng = Rng::new(seed);
